@@ -113,6 +113,21 @@ func c07(c *Ctx) {
 				}
 				return nil
 			})
+			// ... also when the configuration (a garbled file, say) lists a controller with id 0 and a perfectly good address
+			{
+				u0, d0 := mkMemClient(ClientCfg{Bind: "0.0.0.0:0", Broadcast: "192.168.1.255:60000", Devices: []DevCfg{
+					{ID: 0, Name: "zero", Addr: "192.168.1.100:60000", Proto: []string{"udp", "tcp", ""}[r.Pick(3)], NewDevice: r.Chance(0.5)}, {ID: r.Serial(), Addr: "192.168.1.101:60000"}}})
+				uSaved, dSaved := u, d
+				u, d = u0, d0
+				judge(op, 0, "id0-configured", false, "controller id 0 (a controller with id 0 is configured) "+a.String(), nil, func() error {
+					out := adapter.Call(u0, op.Name, 0, a, aux)
+					if out.Err != "" {
+						return fmt.Errorf("%s", out.Err)
+					}
+					return nil
+				})
+				u, d = uSaved, dSaved
+			}
 			serial := r.Serial()
 			cur = a
 			judge(op, serial, "valid", true, fmt.Sprintf("valid call %v", a), op.Request(serial, a), func() error {
